@@ -19,6 +19,7 @@ def run(tier, replay=None):
     rep.set("bounds", {"schemas": "kinds + a stride of the catalogue (%d schemas)" % len(todo),
                        "mutators": "every field / composite-member setter, set_by_tag, cursor setters (plain and wrapped), fill_message_header, fill_group_header, header setters, group resize/clear, every dynamic_array_ref and static_array_ref mutator overload, element assignment through operator[] / iterators / front / back / data / raw()",
                        "combinations": "(V<const B>), (V<const B>, cursor<B>), (V<B>, cursor<const B>), (V<const B>, cursor<const B>); positive control on the mutable twin",
+                       "derived_views": "every view-returning accessor (group, data, composite, array; entries through [] / front / back / iterators / cursor_range / cursor_begin / cursor_subrange) named and through get_by_tag, without cursor and with cursor x {plain, init, dont_move, init_dont_move} on every view/cursor constness combination: the resulting view's byte type must be const unless view and cursor are both mutable",
                        "conversions": "V<B> <-> V<const B> for every view / entry / array / data type and cursors",
                        "run_time": "every getter, size query, iterator, cursor traversal, get_by_tag and visit on an image mapped PROT_READ",
                        "cells": [cxx.cell_name(c) for c in cells]})
@@ -45,7 +46,8 @@ def run(tier, replay=None):
             results.append((cell, "ran", out, rc))
         return fam, s, (sb, cp, results), None
 
-    probes = neg = stage2 = convs = 0
+    probes = neg = stage2 = convs = derived = derived_neg = 0
+    derived_obs = {}
     stage2_jobs = []
     for fam, s, res, err in cxx.pmap(one, todo, jobs=8):
         if err:
@@ -53,6 +55,7 @@ def run(tier, replay=None):
             continue
         sb, cp, results = res
         byid = {p.pid: p for p in cp.probes}
+        dbyid = {p.pid: p for p in cp.derived}
         rep.distinct("distinct_nontrivial", s.package)
         for cell, kind, out, rc in results:
             cn = cxx.cell_name(cell)
@@ -76,6 +79,25 @@ def run(tier, replay=None):
                         neg += 1
                         if val == 1:
                             flagged.append((p, combo))
+                elif w[0] == "D":
+                    # a view obtained from a view / cursor combination: mutable byte type only if everything is mutable
+                    pid, combo, inv, cb = int(w[1]), w[2], int(w[3]), int(w[4])
+                    p = dbyid[pid]
+                    derived += 1
+                    if combo in ("mut", "mut/mut"):
+                        if inv != 1 or cb != 0:
+                            rep.harness_error("%s: positive control failed for %s (%s): invocable=%d const-byte=%d" % (s.package, p.what, p.kind, inv, cb))
+                    elif inv == 1 and p.kind == "derived-view:entry:cursor-iteration" and combo == "mut-view/const-cursor":
+                        # entries of a cursor range have the *group's* value_type by design (cursor_range_t is declared with
+                        # value_type); their mutability is the mutable group's own, the const cursor adds nothing: recorded only
+                        derived_obs[cb] = derived_obs.get(cb, 0) + 1
+                    elif inv == 1:
+                        derived_neg += 1
+                        if cb != 1:
+                            rep.violation("mutable-view-from-const:%s:%s" % (p.kind, combo),
+                                          {"schema": s.package, "cell": cn, "msg": "%s: `%s` on %s yields a view with a mutable byte type" % (s.package, p.what, combo)})
+                    elif combo != "const-view/mut-cursor" and p.cursor is False:
+                        rep.harness_error("%s: getter %s not invocable on %s" % (s.package, p.what, combo))
                 elif w[0] == "CONV":
                     convs += 1
                     to_const, to_mut = int(w[2]), int(w[3])
@@ -119,6 +141,11 @@ def run(tier, replay=None):
     rep.set("negative_probes", neg)
     rep.set("second_stage_compiles", stage2)
     rep.set("conversion_pairs", convs)
+    rep.set("derived_view_probes", derived)
+    rep.set("derived_view_probes_on_const_combinations", derived_neg)
+    rep.set("cursor_range_entries_of_mutable_group_with_const_cursor", {"const-byte" if k else "group-byte-type": v for k, v in derived_obs.items()})
+    rep.assume("views returned by cursor-based accessors carry the cursor's byte type (doc/representation.md 'Cursor-based accessors', unit test ViewAccessorReturnViewWithSameByteTypeAsCursor); "
+               "entries produced by cursor_range/cursor_begin/cursor_subrange carry the group's byte type by declaration, which is recorded, not judged, for a mutable group with a const cursor")
     rep.set("readonly_images_decoded", total.cases + vt.cases)
     rep.set("evaluations", probes + convs + total.cases + vt.cases)
     rep.set("rule", "one evaluation = one probe on one byte/cursor combination and cell, one conversion pair, or one read-only image decoded completely; distinct = distinct schemas")
